@@ -545,7 +545,7 @@ func runC02(c *Ctx) {
 			keys := []string{"k", "d/x"}
 			alpha := opAlphabet(bk, keys, single)
 			diskThin := 1
-			if cfg.kind == drv.FsDir || cfg.kind == drv.SingleDir {
+			if drv.HasRealDir(cfg.kind) {
 				diskThin = r.Pick(8, 2)
 			}
 			for idx := j.lo; idx < j.hi; idx++ {
